@@ -20,6 +20,7 @@
 //!     `T toks` text, `D NAME toks`, `U NAME`, `IFDEF NAME`, `IFNDEF NAME`, `IF toks`, `ELIF toks`, `ELSE`, `ENDIF`
 //!   observe : `ok:<tokens>` | `err:<kind>` from the real preprocessor started with the define list *observed* for the target
 //!   oracle  : programs that do not mention RSSL_TARGET_* give the same result on all four targets
+use crate::c17::wgen::{gen_wide, render_wide, RenderOpts, WItem, WProgram, WideOpts};
 use crate::compile_util::*;
 use crate::progen::*;
 use crate::util::*;
@@ -145,6 +146,9 @@ struct Built {
     defines: Vec<(String, String)>,
     /// control: the file *does* test a target macro, the oracle is expected to flag it
     control: bool,
+    /// `wide` variants (self-contained programs of harness/src/c17/wgen.rs): names and stage lists of the active
+    /// pipelines, computed from the program text; `None` = take them from `prog`
+    wide_pipes: Option<Vec<(String, String)>>,
 }
 
 pub const VARIANTS: &[&str] = &[
@@ -203,6 +207,14 @@ pub const VARIANTS: &[&str] = &[
     "reserved-cb-double",
     "entry-texture",
     "entry-kernel",
+    "wide",
+    "wide-rich",
+    "wide-odd",
+    "wide-inc-on",
+    "wide",
+    "wide-odd-rich",
+    "wide-on",
+    "wide-rich-inc",
 ];
 
 fn decls_of(p: &Program) -> Vec<DeclDesc> {
@@ -297,6 +309,9 @@ fn build(seed: u64, variant_full: &str) -> Option<Built> {
 }
 
 fn build_with(seed: u64, variant: &str, drops: &str) -> Option<Built> {
+    if variant == "wide" || variant.starts_with("wide-") {
+        return build_wide(seed, variant, drops);
+    }
     let mut rng = Rng::new(seed);
     let opts = GenOpts { allow_mesh: seed % 3 == 0, ..GenOpts::default() };
     let mut prog = gen_program(&mut rng, &opts);
@@ -512,7 +527,131 @@ fn build_with(seed: u64, variant: &str, drops: &str) -> Option<Built> {
     if variant == "e-pp-unterminated" {
         expect_front_reject = true;
     }
-    Some(Built { src, decls, prog, expect_front_reject, includes, defines, control })
+    Some(Built { src, decls, prog, expect_front_reject, includes, defines, control, wide_pipes: None })
+}
+
+/// `wide[-odd][-inc][-on][-rich]`: a program of the C17 wide generator (every resource kind incl. typedef'd, unsized,
+/// bindless arrays, cbuffers with 0-5 members, static samplers with properties, inactive text that names the target
+/// macros, 9 entry signature shapes, every pipeline state property); `-odd` = with the generator's odd edits (mostly
+/// front-end rejections of the type checker), `-inc` = part of the file included, `-on` = API define WIDE_ON,
+/// `-rich` = function bodies that call methods on the resources.  Shrinking drops resource / pipeline items.
+fn build_wide(seed: u64, variant: &str, drops: &str) -> Option<Built> {
+    let opts: Vec<&str> = variant.split('-').skip(1).collect();
+    if opts.iter().any(|o| !["odd", "inc", "on", "rich"].contains(o)) {
+        return None;
+    }
+    let has = |o: &str| opts.contains(&o);
+    let mut rng = Rng::new(seed ^ 0x18_18);
+    let wo = WideOpts {
+        allow_mesh: seed % 3 == 0,
+        odd_percent: if has("odd") { 100 } else { 0 },
+        no_overloads: true,
+        rich_percent: if has("rich") { 100 } else { 30 },
+        unsized_arrays: seed % 4 == 0,
+        ..WideOpts::default()
+    };
+    let mut prog = gen_wide(&mut rng, &wo);
+    let mut tries = 0;
+    while prog.pipes().is_empty() && seed % 16 != 1 && tries < 20 {
+        prog = gen_wide(&mut rng, &wo);
+        tries += 1;
+    }
+    // shrinking: drop the k-th resource / pipeline item, helper calls, statics
+    let mut rdrop: Vec<usize> = Vec::new();
+    let mut pdrop: Vec<usize> = Vec::new();
+    let (mut no_helpers, mut no_statics) = (false, false);
+    for d in drops.split('.').filter(|d| !d.is_empty()) {
+        match (d.chars().next(), d[1..].parse::<usize>()) {
+            (Some('r'), Ok(i)) => rdrop.push(i),
+            (Some('p'), Ok(i)) => pdrop.push(i),
+            (Some('h'), _) => no_helpers = true,
+            (Some('s'), _) => no_statics = true,
+            _ => return None,
+        }
+    }
+    if rdrop.iter().any(|i| *i >= prog.resources().len()) || pdrop.iter().any(|i| *i >= prog.pipes().len()) {
+        return None;
+    }
+    let dropped_res: Vec<String> = prog.resources().iter().enumerate().filter(|(i, _)| rdrop.contains(i)).map(|(_, r)| r.name.clone()).collect();
+    let (mut ri, mut pi) = (0usize, 0usize);
+    let mut items = Vec::new();
+    for it in &prog.items {
+        match it {
+            WItem::Res(_) => {
+                if !rdrop.contains(&ri) {
+                    items.push(it.clone());
+                }
+                ri += 1;
+            }
+            WItem::Pipe(_) => {
+                if !pdrop.contains(&pi) {
+                    items.push(it.clone());
+                }
+                pi += 1;
+            }
+            WItem::Static(_) if no_statics => {}
+            WItem::Func(f) => {
+                let mut f = f.clone();
+                f.uses.retain(|u| !dropped_res.contains(u));
+                if no_helpers {
+                    f.calls.clear();
+                }
+                if no_statics {
+                    f.statics.clear();
+                }
+                items.push(WItem::Func(f));
+            }
+            _ => items.push(it.clone()),
+        }
+    }
+    let prog = WProgram { items };
+    let on = has("on");
+    let act = prog.active(on);
+    let decls: Vec<DeclDesc> = prog
+        .resources()
+        .iter()
+        .map(|r| DeclDesc {
+            name: r.name.clone(),
+            kind: if r.kind == "TrapBuffer" { "StructuredBuffer".to_string() } else { r.kind.clone() },
+            len: if r.kind == "cbuffer" {
+                "-".into()
+            } else {
+                match r.len {
+                    Some(0) => "*".into(),
+                    Some(n) => n.to_string(),
+                    None => "-".into(),
+                }
+            },
+            ss: r.static_sampler,
+        })
+        .collect();
+    // stage lists as the pipeline blocks spell them (meaningful when the front end accepts the file)
+    let mut wide_pipes = Vec::new();
+    for p in act.pipes() {
+        let mut st = Vec::new();
+        for pr in &p.props {
+            let Some(stage) = pr.name.strip_suffix("Shader") else { continue };
+            if !["Vertex", "Pixel", "Compute", "Mesh", "Task"].contains(&stage) {
+                continue;
+            }
+            let entry = match &pr.val {
+                crate::c17::wgen::Val::Ident(n) => n.clone(),
+                _ => "?".to_string(),
+            };
+            let th = act.funcs().iter().find(|f| f.name == entry && !f.flags.contains('d')).and_then(|f| f.threads);
+            st.push(match th {
+                Some(t) => format!("{}={}@{}x{}x{}", stage, entry, t[0].v, t[1].v, t[2].v),
+                None => format!("{}={}", stage, entry),
+            });
+        }
+        wide_pipes.push((p.name.clone(), st.join(",")));
+    }
+    let r = render_wide(&prog, &RenderOpts { include: has("inc") });
+    let src = r.files[0].1.clone();
+    let includes: Vec<(String, String)> = r.files[1..].to_vec();
+    let defines: Vec<(String, String)> = if on { vec![("WIDE_ON".into(), "1".into())] } else { Vec::new() };
+    let empty = Program { nstatics: 0, resources: Vec::new(), helpers: Vec::new(), entries: Vec::new(), pipes: Vec::new(), layout: 0 };
+    Some(Built { src, decls, prog: empty, expect_front_reject: false, includes, defines, control: false, wide_pipes: Some(wide_pipes) })
 }
 
 // ------------------------------------------------------------------------------------------------ oracle helpers
@@ -699,8 +838,11 @@ fn run_cross(seed: u64, variant: &str, out: &mut Out, hist: &mut Hist) {
         ALL_TARGETS.iter().map(|t| (*t, compile_info(&files, &defs, *t, &Mode::All))).collect();
     let decls: Vec<String> =
         b.decls.iter().map(|d| format!("{}:{}:{}:{}", d.name, d.kind, d.len, if d.ss { 1 } else { 0 })).collect();
-    let pipe_names: Vec<String> = b.prog.pipes.iter().map(|p| p.name.clone()).collect();
-    let pipes: Vec<String> = b
+    let pipe_names: Vec<String> = match &b.wide_pipes {
+        Some(wp) => wp.iter().map(|(n, _)| n.clone()).collect(),
+        None => b.prog.pipes.iter().map(|p| p.name.clone()).collect(),
+    };
+    let legacy_pipes: Vec<String> = b
         .prog
         .pipes
         .iter()
@@ -720,6 +862,12 @@ fn run_cross(seed: u64, variant: &str, out: &mut Out, hist: &mut Hist) {
         })
         .collect();
     let verdicts: Vec<String> = results.iter().map(|(t, v)| format!("{}={}", t.name(), class(v))).collect();
+    let pipes: Vec<String> = match &b.wide_pipes {
+        // the stage lists of a wide program are read off its text: they mean something only if the file is accepted
+        Some(_) if !results.iter().any(|(_, v)| matches!(v, Verdict::Ok(_))) => Vec::new(),
+        Some(wp) => wp.iter().map(|(n, st)| format!("{}:{}", n, st)).collect(),
+        None => legacy_pipes,
+    };
     let req = format!(
         "C18.cross\t{}\t{}\t{}\t{}\t{}",
         seed,
@@ -795,6 +943,50 @@ fn run_cross(seed: u64, variant: &str, out: &mut Out, hist: &mut Hist) {
                 }
                 if !has_address && v[i].text != va[i].text {
                     fails.push(format!("pipeline {}: vk and vk+buffer-address sources differ without any buffer address", i));
+                }
+                if has_address {
+                    // "differ only in how buffer addresses are lowered": every line that is not the same in both texts
+                    // names a declared buffer address (its declaration, a use) or the inline descriptor block that
+                    // replaces the bindings; all other lines are equal, in order
+                    let addr_names: Vec<&str> =
+                        b.decls.iter().filter(|d| d.kind.contains("Address")).map(|d| d.name.as_str()).collect();
+                    let keep = |text: &str| -> Vec<String> {
+                        let mut out = Vec::new();
+                        let mut in_block = false;
+                        for l in text.lines() {
+                            // the generated `struct InlineDescriptorN { .. };` / cbuffer that carries the addresses
+                            if l.contains("InlineDescriptor") || l.contains("g_inlineDescriptor") {
+                                if l.trim_end().ends_with('{') || !l.contains(';') {
+                                    in_block = true;
+                                }
+                                continue;
+                            }
+                            if in_block {
+                                if l.starts_with('}') {
+                                    in_block = false;
+                                }
+                                continue;
+                            }
+                            let toks = tokens(l);
+                            if toks.iter().any(|t| addr_names.iter().any(|a| t == a || t.starts_with(&format!("{}.", a)) || base_name(t, &addr_names) == *a)) {
+                                continue;
+                            }
+                            out.push(l.to_string());
+                        }
+                        out
+                    };
+                    // binding numbers move when the addresses leave the descriptor table: annotations are erased here too
+                    let (kv, kva) = (
+                        erase_annotations(&tokens(&keep(&v[i].text).join("\n"))),
+                        erase_annotations(&tokens(&keep(&va[i].text).join("\n"))),
+                    );
+                    if kv != kva {
+                        fails.push(format!(
+                            "pipeline {}: vk and vk+buffer-address sources differ on a line that names no buffer address {}",
+                            i,
+                            first_diff(&kv, &kva)
+                        ));
+                    }
                 }
                 // 4. entry names among the HLSL flavours
                 if d[i].stages != v[i].stages || d[i].stages != va[i].stages {
@@ -896,7 +1088,7 @@ fn run_cross(seed: u64, variant: &str, out: &mut Out, hist: &mut Hist) {
     let _ = msl;
     hist.add(&format!("variant={}", variant));
     hist.add(&format!("verdicts={}", verdicts.join(",")));
-    hist.add(&format!("pipes={}", b.prog.pipes.len()));
+    hist.add(&format!("pipes={}", pipe_names.len()));
     hist.add(&format!("resources={}", b.decls.len()));
     for d in &b.decls {
         hist.add(&format!("kind={}", d.kind));
@@ -1264,6 +1456,16 @@ pub fn run(args: &Args, out: &mut Out) {
         let seed = rng.next() >> 16;
         let variant = VARIANTS[(i as usize) % VARIANTS.len()];
         run_cross(seed, variant, out, &mut hist);
+    }
+    // the wide programs of the C17 generator, every option combination by turns
+    const WIDE_VARIANTS: &[&str] = &[
+        "wide", "wide-rich", "wide-odd", "wide-inc-on", "wide-rich-on", "wide-odd-rich", "wide-on", "wide-rich-inc", "wide-odd-inc",
+        "wide-rich", "wide-odd-on", "wide-rich-inc-on",
+    ];
+    let nw = if args.n.is_some() { 0 } else if args.thorough() { 5000 } else { 400 };
+    for i in 0..nw {
+        let seed = rng.next() >> 16;
+        run_cross(seed, WIDE_VARIANTS[(i as usize) % WIDE_VARIANTS.len()], out, &mut hist);
     }
     let defs = defs_by_target(out);
     let npp = if args.thorough() { 20000 } else { 1500 };
